@@ -11,3 +11,6 @@ package ecs
 
 //@ lemma msubView(a bitMask, b bitMask) serves C08 C03 := msub(a, b) == (forall i uint8 :: mhas(a, i) ==> mhas(b, i))
 //@ lemma memptyView(a bitMask) serves C08 C03 := mempty(a) == (forall i uint8 :: !mhas(a, i))
+
+//@ spec func mdisj(a bitMask, b bitMask) bool := a.bits&b.bits == 0
+//@ lemma mdisjView(a bitMask, b bitMask) serves C03 C05 := mdisj(a, b) == (forall i uint8 :: !(mhas(a, i) && mhas(b, i)))
